@@ -337,6 +337,18 @@ class _native_backend:
             NumpyBackend.register_method(name, rec)
         wrap("solve", "SOL", lambda o: o)
         wrap("lstsq", "LSQ", lambda o: o[0])
+        real_qr = NumpyBackend.__dict__["qr"]
+        self._saved["qr"] = real_qr
+        fq = real_qr.__func__ if hasattr(real_qr, "__func__") else real_qr
+
+        def rec_qr(*a, **k):
+            out = fq(*a, **k)
+            i = counters.get("QRQ", 0)
+            counters["QRQ"] = i + 1
+            self.recorded[f"QRQ#{i}"] = np.array(out[0], copy=True)
+            self.recorded[f"QRR#{i}"] = np.array(out[1], copy=True)
+            return out
+        NumpyBackend.register_method("qr", rec_qr)
         return self
 
     def __exit__(self, *a):
